@@ -182,9 +182,22 @@ func classify(m *ast.Module) []string {
 		names[n] = true
 	}
 	imps := map[string]bool{}
-	for _, s := range funcImports(m) {
-		add(s)
-		imps[s] = true
+	for _, im := range m.Imports {
+		switch im.ObjKind {
+		case token.FUNC:
+			if im.FuncName == "" {
+				fl["unnamed-func-import"] = true
+			} else {
+				add(im.FuncName)
+				imps[im.FuncName] = true
+			}
+		case token.MEMORY:
+			fl["import-memory"] = true
+		case token.GLOBAL:
+			fl["import-global"] = true
+		case token.TABLE:
+			fl["import-table"] = true
+		}
 	}
 	for _, fn := range m.Funcs {
 		add(fn.Name)
@@ -394,6 +407,23 @@ func moduleSummary(m *ast.Module) map[string]string {
 		is = append(is, d(s))
 	}
 	r["imports"] = strings.Join(is, " ")
+	var oi []string
+	for _, im := range m.Imports {
+		switch im.ObjKind {
+		case token.MEMORY:
+			oi = append(oi, fmt.Sprintf("memory:%s.%s", im.ObjModule, im.ObjName))
+		case token.GLOBAL:
+			oi = append(oi, fmt.Sprintf("global:%s.%s:%s", im.ObjModule, im.ObjName, d(im.GlobalName)))
+		case token.TABLE:
+			oi = append(oi, fmt.Sprintf("table:%s.%s", im.ObjModule, im.ObjName))
+		}
+	}
+	r["other-imports"] = strings.Join(oi, " ")
+	var gl []string
+	for _, g := range m.Globals {
+		gl = append(gl, d(g.Name))
+	}
+	r["rest"] = fmt.Sprintf("memory=%v table=%v globals=[%s] data=%d types=%d", m.Memory != nil, m.Table != nil, strings.Join(gl, " "), len(m.Data), len(m.Types))
 	r["start"] = d(m.Start)
 	var ex []string
 	for _, e := range m.Exports {
@@ -438,10 +468,84 @@ func trapClass(err error) string {
 	return s
 }
 
+func zeroConst(t token.Token) string {
+	return fmt.Sprintf("%v.const 0", t)
+}
+
+// providerWats: for every import module name of the ORIGINAL module that supplies a memory, a global
+// or a table, the text of a WebAssembly module exporting everything the original imports from that
+// name (function imports of such a name become silent stubs returning zeros; names that supply only
+// functions get logging Go host functions, see instantiate).
+func providerWats(m *ast.Module) (names []string, wats map[string]string) {
+	wats = map[string]string{}
+	need := map[string]bool{}
+	for _, im := range m.Imports {
+		if im.ObjKind != token.FUNC {
+			if !need[im.ObjModule] {
+				names = append(names, im.ObjModule)
+			}
+			need[im.ObjModule] = true
+		}
+	}
+	for _, mn := range names {
+		var b strings.Builder
+		b.WriteString("(module\n")
+		done := map[string]bool{}
+		k := 0
+		for _, im := range m.Imports {
+			if im.ObjModule != mn || done[im.ObjName] {
+				continue
+			}
+			done[im.ObjName] = true
+			k++
+			switch im.ObjKind {
+			case token.MEMORY:
+				pages := im.Memory.Pages
+				if pages < 1 {
+					pages = 1
+				}
+				if im.Memory.MaxPages > 0 {
+					fmt.Fprintf(&b, "  (memory %d %d)\n", pages, im.Memory.MaxPages)
+				} else {
+					fmt.Fprintf(&b, "  (memory %d)\n", pages)
+				}
+				fmt.Fprintf(&b, "  (export %q (memory 0))\n", im.ObjName)
+			case token.TABLE:
+				if im.Table.MaxSize > 0 {
+					fmt.Fprintf(&b, "  (table %d %d funcref)\n", im.Table.Size, im.Table.MaxSize)
+				} else {
+					fmt.Fprintf(&b, "  (table %d funcref)\n", im.Table.Size)
+				}
+				fmt.Fprintf(&b, "  (export %q (table 0))\n", im.ObjName)
+			case token.GLOBAL:
+				fmt.Fprintf(&b, "  (global $g%d %v (%v.const %d))\n", k, im.GlobalType, im.GlobalType, 5+k)
+				fmt.Fprintf(&b, "  (export %q (global $g%d))\n", im.ObjName, k)
+			case token.FUNC:
+				fmt.Fprintf(&b, "  (func $s%d", k)
+				for _, p := range im.FuncType.Params {
+					fmt.Fprintf(&b, " (param %v)", p.Type)
+				}
+				for _, r := range im.FuncType.Results {
+					fmt.Fprintf(&b, " (result %v)", r)
+				}
+				b.WriteString("\n")
+				for _, r := range im.FuncType.Results {
+					fmt.Fprintf(&b, "    %s\n", zeroConst(r))
+				}
+				b.WriteString("  )\n")
+				fmt.Fprintf(&b, "  (export %q (func $s%d))\n", im.ObjName, k)
+			}
+		}
+		b.WriteString(")\n")
+		wats[mn] = b.String()
+	}
+	return names, wats
+}
+
 // instantiate with stub host modules derived from the binary's own import list: every imported
 // function logs its arguments and returns values computed from them (so the transcript depends on
 // which import was called, in which order, with what).
-func instantiate(wasmBytes []byte) (*inst, string) {
+func instantiate(wasmBytes []byte, orig *ast.Module) (*inst, string) {
 	x := &inst{}
 	x.rt = wazero.NewRuntimeWithConfig(bg, wazero.NewRuntimeConfigInterpreter())
 	cm, err := x.rt.CompileModule(bg, wasmBytes)
@@ -449,6 +553,23 @@ func instantiate(wasmBytes []byte) (*inst, string) {
 		return x, "error:compile:" + firstLine(err.Error())
 	}
 	x.cm = cm
+	// memory / global / table providers: the same set (the original's) next to both modules
+	provided := map[string]bool{}
+	pnames, pwats := providerWats(orig)
+	for _, mn := range pnames {
+		pb, st := asm("provider-"+mn, []byte(pwats[mn]))
+		if st != "ok" {
+			return x, "error:provider:" + st
+		}
+		pcm, err := x.rt.CompileModule(bg, pb)
+		if err != nil {
+			return x, "error:provider:" + firstLine(err.Error())
+		}
+		if _, err := x.rt.InstantiateModule(bg, pcm, wazero.NewModuleConfig().WithName(mn)); err != nil {
+			return x, "error:provider:" + firstLine(err.Error())
+		}
+		provided[mn] = true
+	}
 	byMod := map[string][]api.FunctionDefinition{}
 	var order []string
 	for _, f := range cm.ImportedFunctions() {
@@ -459,6 +580,9 @@ func instantiate(wasmBytes []byte) (*inst, string) {
 		byMod[mn] = append(byMod[mn], f)
 	}
 	for _, mn := range order {
+		if provided[mn] {
+			continue
+		}
 		b := x.rt.NewHostModuleBuilder(mn)
 		done := map[string]bool{}
 		for _, f := range byMod[mn] {
@@ -654,6 +778,13 @@ func process(kind, arg string, seed uint64, dumpDir string) (o Out) {
 	})
 	if passOut != nil && !strings.HasPrefix(o.Kept, "PANIC") {
 		o.Refs = danglingRefs(passOut)
+		// everything but functions and function imports must come out of the pass as it went in
+		after := moduleSummary(passOut)
+		for _, k := range []string{"start", "func-exports", "elem", "other-imports", "rest"} {
+			if before[k] != after[k] {
+				o.Text = append(o.Text, "pass-changed-"+k)
+			}
+		}
 	}
 
 	// text level: WatStrip = parse, pass, print
@@ -670,13 +801,9 @@ func process(kind, arg string, seed uint64, dumpDir string) (o Out) {
 		} else {
 			want := moduleSummary(passOut)
 			got := moduleSummary(m3)
-			for _, k := range []string{"funcs", "imports", "start", "func-exports", "elem"} {
+			for _, k := range []string{"funcs", "imports", "start", "func-exports", "elem", "other-imports", "rest"} {
 				if want[k] != got[k] {
 					o.Text = append(o.Text, k)
-				}
-				// exports/start/elem must also be what the input had
-				if k != "funcs" && k != "imports" && before[k] != want[k] {
-					o.Text = append(o.Text, "pass-changed-"+k)
 				}
 			}
 		}
@@ -695,11 +822,11 @@ func process(kind, arg string, seed uint64, dumpDir string) (o Out) {
 	if ost != "ok" || sst != "ok" {
 		return o
 	}
-	xo, ist := instantiate(ob)
+	xo, ist := instantiate(ob, m)
 	defer xo.close()
 	o.OrigInst = ist
 	startLogO := append([]string(nil), xo.log...)
-	xs, sst2 := instantiate(sb)
+	xs, sst2 := instantiate(sb, m)
 	defer xs.close()
 	o.StripIns = sst2
 	startLogS := append([]string(nil), xs.log...)
